@@ -213,6 +213,22 @@ def _coerce_shape(fn: ast.FunctionDef) -> tuple[list[str], list[str], list[str],
     return guards, handlers, parts, raised
 
 
+def _post_kind(fn: ast.AST) -> str:
+    """how a function sends its POSTs: "retry" (only `_post_with_retry(…, config=…retry…)`), "bare" (only `<client>.post`),
+    "mixed" or "none" """
+    kinds = set()
+    for n in ast.walk(fn):
+        if isinstance(n, ast.Call):
+            f = ast.unparse(n.func)
+            if f == "_post_with_retry":
+                kinds.add("retry")
+            elif f.endswith("client.post") or f.endswith("_client.post"):
+                kinds.add("bare")
+    if not kinds:
+        return "none"
+    return kinds.pop() if len(kinds) == 1 else "mixed"
+
+
 def _raise_msg(fn: ast.FunctionDef) -> str:
     for n in ast.walk(fn):
         if isinstance(n, ast.Raise) and isinstance(n.exc, ast.Call) and n.exc.args:
@@ -256,6 +272,12 @@ def emit() -> dict[str, str]:
     hcancel_seals = _sets_before_io(hc_fn, ["self._finished = True", "self._state_bytes = None"])
     hclose_noop = len(_body(_fn(hs, "close"))) == 0
     it_start, it_token = _iter_token_check(_fn(hs, "__iter__"))
+
+    proxy = _cls(t_http, "_HttpProxy")
+    post_init = _post_kind(_fn(_fn(proxy, "_make_stream_caller"), "caller"))
+    post_cont = _post_kind(_fn(hs, "_send_continuation"))
+    post_exchange = _post_kind(_fn(hs, "exchange"))
+    post_cancel = _post_kind(hc_fn)
 
     sv = _serve_stream_shape(_fn(t_server, "_serve_stream"))
     hv = _http_server_cancel_shape(_fn(t_app, "_run_stream_exchange_sync"))
@@ -328,6 +350,15 @@ def httpCloseNoop : Bool := {lb(hclose_noop)}
 def iterChecksFinishedAtStart : Bool := {lb(it_start)}
 /-- … and in the token branch before `_send_continuation(token)` (used by the model) -/
 def iterChecksFinishedAtToken : Bool := {lb(it_token)}
+
+/-- which requests go through `_post_with_retry` ("retry") and which are a bare `client.post` ("bare"): every attempt
+that reaches the server is served again, so a retried cancel would run `on_cancel` once per attempt -/
+def postInit : String := {lean_str(post_init)}
+def postContinuation : String := {lean_str(post_cont)}
+def postExchange : String := {lean_str(post_exchange)}
+def postCancel : String := {lean_str(post_cancel)}
+/-- used by the model: `cancel()` is retried -/
+def cancelRetried : Bool := {lb(post_cancel != "bare")}
 
 /-- `_run_stream_exchange_sync`: `if cancel_flag:` precedes both turn helpers, calls `on_cancel` once inside
 `try/except Exception`, runs no turn / `process`, and returns -/
